@@ -125,6 +125,23 @@ def long_chunk_cases(r, cid0, tier):
                 cid, gen_harness.shape_name(src, chain), ",".join(map(str, inp)), ";".join(ops), term, k3.AVAIL, sched)
             out.append((line, "long_chunks_late_publishes", inp))
             cid += 1
+    # pulls of thousands of elements from sources of unknown and of exact length through the ordered
+    # filtering collect, the counting and the reducing kernels: which worker got which positions
+    for c in ([3000] if tier == "quick" else [1500, 3000, 5000]):
+        n = 2 * c + c // 3
+        for src in ["iteru", "iterx", "vec"]:
+            for (chain, stages, term) in [("F", ["Fa"], "cv"), ("MF", ["M:1:0", "Fa"], "ci:v:7/8"), ("F", ["Fa"], "cnt"),
+                                          ("O", ["O:2:0:1:0"], "cv"), ("M", ["M:1:0"], "red:add")]:
+                if src != "vec" and chain == "M" and term.startswith("red"):
+                    pass
+                ops = ["N:2", "C:%d" % c] + stages + ["C:%d" % c, "N:2"]
+                sched = "0x4,1x1,2x1,1x%d,2x%d,1x%d,2x%d,0x5,1x5,2x5" % (c + 10, c + 10, c + 10, c + 10)
+                inp = list(range(n))
+                line = "id=%d shape=%s known=%d in=%s ops=%s term=%s avail=%d sched=%s fuel=0 macro=1" % (
+                    cid, gen_harness.shape_name(src, chain), 1 if gen_harness.SOURCES[src][2] else 0,
+                    ",".join(map(str, inp)), ";".join(ops), term, k3.AVAIL, sched)
+                out.append((line, "long_pulls", inp))
+                cid += 1
     return out
 
 
